@@ -346,7 +346,8 @@ def rule_recipe(rng, doc, well_typed=False, cast_p=0.0, maxlen=3, fns=None):
     return {"rparts": rparts, "cond": value_tree(rng, 2, well_typed, fns), "cast": cast}
 
 
-CAST_STRS = ["true", "FALSE", "True", "3", " 7 ", "x3", "", "-2", "1_0", "tru", "0", "+5", "1.5", "false "]
+CAST_STRS = ["true", "FALSE", "True", "3", " 7 ", "x3", "", "-2", "1_0", "tru", "0", "+5", "1.5", "false ",
+             "fal\u017fe", "TRUE\u2003", "\u00a07", "\u0663", "1\uff13", "\t3", "\x1f5", "tRuE", "1__0", "_1", "\u2003true"]
 
 
 def cast_document(rng, depth=3):
@@ -384,6 +385,8 @@ def default_key(m, e):
 def replay(rep, case):
     r = case["case"]["recipe"]
     doc = from_lit(r["doc"])
+    if r.get("sub"):
+        doc = gen.subclassify(doc)
     if r["op"] == "ruletest":
         rr = unlit_rule(r["rule"])
         lit = unlit_rule(r["lit"]) if r.get("lit") else None
